@@ -270,3 +270,13 @@ with 1 as wt, 1.5 as wu, 'a' 'b' as wv, f'{wk}' as ww, ... as wx, None as wy, Tr
 with -wa, +wb, ~wc, not wd, wa ** wb, await_ as we: pass
 with wa if wb else wc, lambda: wd, wa or wb, wa and wb, wa < wb, wa | wb: pass
 with wa.b.c(), wa[0][1:2], wa(*wb, **wc).d: pass
+with (wa := f(),): pass
+with (wa,): pass
+with (wa,) as wt: pass
+with (wa := 1): pass
+with (wa := 1) as wt, (wb := 2,) as wu: pass
+with (*wa,): pass
+with (wa, wb := 1,): pass
+with (wa), (wb,), ((wc,)), (wd := 1,): pass
+with ((wa := 1,)): pass
+with (wa := 1,), wb: pass
